@@ -138,6 +138,28 @@ def run(ctx):
         _, outX2, _, _ = eng.run_fake(twin, twin.enum_gitlike([twin_c2]), [], [("HEAD", twin_c2)], extra_args=["--json", "--json-version=2", "--no-progress"])
         keys1x = set(json.loads(outX1)) - {"reference_groups"}
         keys2x = {k for k in json.loads(outX2) if not k.startswith("refgroup.")}
+        # the same ROOT spelled as a name and as the object's own id (upper-case, abbreviated, with ^{commit}): the reports have
+        # the same keys at every level — item by item in JSON v2 — whatever the spelling, under every name style
+        def deep_keys(j):
+            return sorted((k, kk) for k, v in j.items() if isinstance(v, dict) for kk in v) + sorted((k, "") for k in j)
+        hexid = twin.oids[twin_c2].hex()
+        for style in ("full", "hash", "none"):
+            for fmt in (["--json"], ["--json", "--json-version=2"]):
+                ref_keys = None
+                for sp in ("HEAD", "refs/heads/main", hexid, hexid.upper(), hexid[:12], hexid + "^{commit}", hexid + "^0"):
+                    rcS, outS, errS, _ = eng.run_fake(twin, twin.enum_gitlike([twin_c2]), [], [(sp, twin_c2)], extra_args=fmt + ["--no-progress", "--names=" + style])
+                    res.case(("root-spelling-keys", sp, style, tuple(fmt)), True)
+                    inp = {"ROOT": sp, "args": fmt + ["--names=" + style]}
+                    try:
+                        ks = deep_keys(json.loads(outS))
+                    except Exception as e:
+                        res.violations.append(vlib.Violation("stdout is not valid JSON: %s" % e, inp, observed=(outS or errS)[:200].decode("latin1")))
+                        continue
+                    if ref_keys is None:
+                        ref_keys = ks
+                    elif ks != ref_keys:
+                        res.violations.append(vlib.Violation("the set of JSON keys depends on how the ROOT is spelled", inp,
+                                                             expected=[k for k in ref_keys if k not in ks][:10], observed=[k for k in ks if k not in ref_keys][:10] or "keys missing"))
         for it in range(40 if quick else 600):
             # the known finding (LF) is exhibited on every run; every other hostile name is the cited one in turn
             sc, names = gen_named(rng, force=b"new\nline" if it == 1 else NASTY[(it * 7) % len(NASTY)])
